@@ -10,11 +10,12 @@ def run(tier):
     exe = driver("asan")
     # M: every spelling of every INVALID line of the bounded family is rejected (AgreesInv)
     # 20: value arguments: a second modification of a variable protected by the original-value check
+    # 24: command-mode argument with a length check on the whole text
     if tier == "quick":
-        cfgs, beh = model_behaviours(c, tier, cfgsel=[2, 3, 5, 6, 8, 20])
+        cfgs, beh = model_behaviours(c, tier, cfgsel=[2, 3, 5, 6, 8, 20, 24])
     else:
         cfgs, beh = model_behaviours(c, tier, cfgsel=[3, 5, 8], maxuses=3)
-        cfgs2, beh2 = model_behaviours(c, tier, cfgsel=[2, 6, 20], maxuses=2)
+        cfgs2, beh2 = model_behaviours(c, tier, cfgsel=[2, 6, 20, 24], maxuses=2)
         beh += beh2
     script = os.path.join(c.wd, "replay.ndjson")
     n = behaviours_script(cfgs, beh, script, select=lambda b: not b["valid"])
@@ -33,6 +34,22 @@ def run(tier):
             if line is None:
                 continue
             for kind, words in arggen.mutations(g, cfg, line):
+                kinds[kind] += 1
+                acts.append(eval_action(words, tag={"k": "mut", "m": kind}))
+        blocks.append((cfg, acts))
+    # T2: rules broken inside a sub-group (bad value, argument used again on the second visit, excluded argument, missing value,
+    # unknown key, a sub-group key used outside) and the refusals of command-mode arguments
+    for k in range(60 if tier == "quick" else 1500):
+        if k % 2:
+            cfg = g.cfg(nargs=g.r.randint(1, 5), constraints=True, subgroups=g.r.choice([1, 1, 2]), cmd=g.r.choice([None, "key"]), exclude=arggen.GROWBITS)
+            lines = [gen_valid(g, cfg) for _ in range(nlines)]
+        else:
+            cfg, lines = arggen.subgroup_scenario(g)
+        acts = []
+        for line in lines:
+            if line is None or g.spell_line(cfg, line) is None:
+                continue
+            for kind, words in arggen.sub_mutations(g, cfg, line):
                 kinds[kind] += 1
                 acts.append(eval_action(words, tag={"k": "mut", "m": kind}))
         blocks.append((cfg, acts))
